@@ -38,7 +38,7 @@ STUBS = ['dd.bdd computations under the wrappers (ite, find_or_add, let, quantif
 
 OPS = ['var', 'true_false', 'ite', 'apply', 'apply_not', 'let_bool', 'let_fn', 'let_name', 'let_empty', 'quantify',
        'exist_forall', 'cube', 'add_expr', 'add_int', 'find_or_add', 'succ', 'low_high', 'operators',
-       'comparisons', 'readonly', 'image', 'preimage', 'copy_other', 'copy_same', 'del_twice',
+       'comparisons', 'readonly', 'queries', 'image', 'preimage', 'copy_other', 'copy_same', 'del_twice',
        'incref_decref']
 
 
@@ -174,6 +174,16 @@ class Harness:
                 fu.ref
                 fu in abdd
                 str(abdd)
+            elif op == 'queries':
+                abdd.count(fu)
+                fu.count()
+                abdd.pick(fu)
+                list(abdd.pick_iter(fu))
+                abdd.to_expr(fu)
+                fu.to_expr()
+                abdd.level_of_var(names[0])
+                abdd.var_at_level(0)
+                len(abdd)
             elif op == 'image':
                 held.append(A.image(fu, fv, {}, set()))
             elif op == 'preimage':
